@@ -45,7 +45,7 @@ var fullAlphabet = []world.Template{
 func FamiliesC03(tier string) []world.Family {
 	l2Len, fieldsLen, fullLen := 6, 3, 6
 	if tier == "thorough" {
-		l2Len, fieldsLen, fullLen = 7, 4, 7
+		l2Len, fieldsLen, fullLen = 8, 4, 7
 	}
 	return []world.Family{
 		{ // every L2 history (bridges, claims of both origins, block boundaries, empty blocks) after a fixed L1 prelude
@@ -73,6 +73,7 @@ func OptionsC03(tier string) Options {
 	o := Options{MaxRetries: 1, SizeVariants: []uint{0, 1}, PrevLERNilToo: true}
 	if tier == "thorough" {
 		o.MaxRetries = 2
+		o.SizeVariants = []uint{0, 1, 300} // 300 bytes: room for about two bridge exits, no claim
 	}
 	return o
 }
@@ -116,4 +117,13 @@ func familyBounds(f world.Family) map[string]any {
 	}
 	return map[string]any{"max_len": f.MaxLen, "prelude": world.OpsString(f.Prelude), "letters": letters,
 		"scenarios": n, "scenarios_by_length": byLen}
+}
+
+// BatchSize: units per worker process (every store construction leaks ~3 file descriptors: a few
+// hundred executions per process stay far below the limit).
+func BatchSize(tier string) int {
+	if tier == "thorough" {
+		return 300
+	}
+	return 150
 }
